@@ -465,8 +465,10 @@ func raceRun(sel string) {
 	loadFixtures()
 	buildOps()
 	runtime.GOMAXPROCS(8)
-	runSet := func(fs []func() string, reps int) {
+	runSet := func(fs []func() string, reps int) [][]string {
+		var all [][]string
 		for r := 0; r < reps; r++ {
+			res := make([]string, len(fs))
 			var wg sync.WaitGroup
 			start := make(chan struct{})
 			for t := range fs {
@@ -474,12 +476,14 @@ func raceRun(sel string) {
 				go func(t int) {
 					defer wg.Done()
 					<-start
-					fs[t]()
+					res[t] = fs[t]()
 				}(t)
 			}
 			close(start)
 			wg.Wait()
+			all = append(all, res)
 		}
+		return all
 	}
 	parts := strings.Split(sel, ":")
 	switch parts[0] {
@@ -492,7 +496,15 @@ func raceRun(sel string) {
 		fmt.Sscanf(parts[1], "%d,%d", &a, &b)
 		fmt.Sscan(parts[2], &reps)
 		prepare([]int{a, b})
-		runSet([]func() string{ops[a].f, ops[b].f, ops[a].f, ops[b].f}, reps)
+		all := runSet([]func() string{ops[a].f, ops[b].f, ops[a].f, ops[b].f}, reps)
+		for _, res := range all {
+			for t, r := range res {
+				want := fx.Solo[ops[[]int{a, b, a, b}[t]].name]
+				if r != want {
+					fmt.Printf("RESULT-DIFFERS goroutine=%d op=%q expected=%s observed=%s\n", t, ops[[]int{a, b, a, b}[t]].name, want, r)
+				}
+			}
+		}
 		fmt.Printf("RAN %s || %s\n", ops[a].name, ops[b].name)
 	}
 }
@@ -720,6 +732,13 @@ func main() {
 					continue
 				}
 				c.Outcome(fmt.Sprintf("races=%v", races > 0))
+				if k := strings.Index(string(out), "RESULT-DIFFERS"); k >= 0 {
+					line := string(out)[k:]
+					if e := strings.Index(line, "\n"); e > 0 {
+						line = line[:e]
+					}
+					c.Fail(i, "free-running-result-differs-from-solo", map[string]any{"selection": sel, "first": line, "data_race_reports": races})
+				}
 				if races > 0 {
 					fn := firstLibFrame(eb.String())
 					c.Fail(i, "data-race:"+fn, map[string]any{"selection": sel, "reports": races, "first_report": tail(firstReport(eb.String()), 4000)})
